@@ -81,10 +81,32 @@ as above (all oracles above apply), plus for this family only:
    a consumer found up-to-date has no new/modified declared-or-calculated file dep, the same dep set as at its last success,
             no False uptodate item (declared or returned by the calc task), no missing target, some dependency, no -a
                                                   shapes uptodate-despite-modified-dep / uptodate-despite-reason-to-run
+
+Family 'shared' (gen_session 'random' / 'revalue' with mostly two consumers + c10_kwargs.add_decl; model side AND every oracle
+above): HOW THE PYTHON-ACTION IS DECLARED.  The actions of the getargs consumers (and of a chain's middle task) are tuples
+`(callable, args, kwargs)` whose `kwargs` is a dict OBJECT of the dodo file -- one object for all those tasks, one per task, or a
+mix; living as long as the process (a module-level constant: the same object in every run of the session) or created anew at
+every load; declared content {a9: n} or {} -- and whose callable takes its inputs through named parameters, through **kwargs only
+(then no meta-argument arrives), or meta-arguments by name and getargs values through **kwargs; sometimes with one positional
+argument.  Two consumers use the same getargs names (a3, a4) for different sources, and in 'revalue' histories a source saves
+other values from run to run: a value left in a shared dict by another task / an earlier run would be a stale or foreign one.
+On top of Shadow.judge (getargs-stale, dependencies-differ, targets-differ, changed-*), c10_kwargs.judge_decl:
+   a declared keyword arrives as declared                                       shape c10:kwargs-declared-value-changed
+   no keyword arrives that is neither declared, nor a getargs entry of the task, nor a meta-argument the callable has a
+            parameter for                                                         shape c10:kwargs-foreign-keyword
+   the declared action is called (positional argument as declared, no exception)  shape c10:kwargs-call-raised
+
+Family 'kwargs' (harness/c10_kwargs.py class_level; model Model/Kwargs.v, theorems C10_kwargs_*): the same dimension at class
+level -- real Task / PythonAction objects, sequences of executions over shared dict objects with the task state (options =
+getargs values, file_dep, dep_changed) changing in between, all signatures (positional / meta / option / declared parameters,
+**kwargs), name collisions included; compared item by item, in dict order, with `calls_z` of the model, and judged by an oracle
+computed from the declared program (shapes c10:kwargs-getargs-not-current / -meta-not-current / -declared-value-changed /
+-foreign-keyword / -call-raised); see that module.
 """
 import contextlib, hashlib, io, json, os, sys
 import common
 from common import Outcome
+import c10_kwargs
 
 PRE = ('From DoitV Require Import Base Status History Inputs.\nOpen Scope Z_scope.\n'
        'Definition md5o (c : N) : N := c.\n'
@@ -120,7 +142,7 @@ def pname(code):
 NOVAL = ('none', 'dict', 'true')      # how a python-action says "no values": return None / {} / True
 
 
-def gen_session(rng, idx, mode='random'):
+def gen_session(rng, idx, mode='random', ncons_choices=(1, 1, 2)):
     """tasks: list of specs; ids are positions; a task depends only on lower ids, except a group
     (its sub-tasks directly follow it).
     mode 'revalue': histories aimed at successive successful executions of one producer that save DIFFERENT
@@ -197,7 +219,7 @@ def gen_session(rng, idx, mode='random'):
             cv.append((3, mask([producers[0]])))
         calc = new(kind='calc', file_dep=rdeps(0.7), uptodate=rutd(), values=cv)
     # consumers
-    ncons = rng.choice([1, 1, 2])
+    ncons = rng.choice(list(ncons_choices))
     for ci in range(ncons):
         gas, params = [], []
         srcs = producers + groups
@@ -869,6 +891,8 @@ class World:
         self.fsview = {}
         self.tasks = sess['tasks']
         self.live = {}
+        self.objs = {}        # family 'shared': declared dict objects that live as long as the process (c10_kwargs.decl_action)
+        self.load_objs = {}   #                  ... and those created anew every time the dodo file is loaded
         self.names = []
         for i, t in enumerate(self.tasks):
             self.names.append('T%d' % i if t['sub_of'] is None else 'T%d:s%d' % (t['sub_of'], i))
@@ -916,7 +940,10 @@ class World:
         failing = i in fails
         # a failing task fails in its FIRST value-producing action: task.values stays {} (a later failing
         # action would leave the values of the earlier ones on the Task object, see the report)
-        if t['action'] == 'py':
+        if t['action'] == 'py' and t.get('decl'):
+            # family 'shared': the action is declared as (callable, args, kwargs) over a dict object of the dodo file
+            acts.append(c10_kwargs.decl_action(self, t, name, ret, failing, {'none': None, 'dict': {}, 'true': True}[t.get('noval', 'none')], append))
+        elif t['action'] == 'py':
             src = ('def rec(%s):\n    _r = False if _failing else (dict(_ret) if _ret else _noval)\n'
                    '    _log(dict(task=_name, kw=dict(%s), ret=_r))\n    return _r\n') % (
                 ', '.join(params), ', '.join('%s=%s' % (p, p) for p in params))
@@ -981,6 +1008,7 @@ class World:
         from doit.cmd_base import ModuleTaskLoader
         import doit.dependency as D
         Rec.events, Rec.tasks, Rec.verdicts, Rec.utd_false = [], None, [], {}
+        self.load_objs = {}
         orig = D.Dependency.get_status
 
         def wrapped(dep, task, tasks_dict, get_log=False):
@@ -1248,6 +1276,8 @@ class Shadow:
 
             def mkcase(i, t):
                 case = dict(session=sess['idx'], task=i, spec={k: v for k, v in t.items()}, tasks=sess['tasks'], cmds=sess['cmds'], backend=sess['backend'])
+                if sess.get('objs') is not None:
+                    case.update(mode='shared', objs=sess['objs'], run=obs['run_no'], task_name=names[i])
                 if delayed:
                     if self.story is None:
                         self.story = delayed_story(sess)
@@ -1550,12 +1580,28 @@ def run(ctx):
                  'declared or calculated file dependency (with none on record all are new), no False uptodate item, no missing target')
     out.rule += ('; family readded (scripted, every seed): a (session, run) counts when the task executed in the run in which a file '
                  'dependency is back after successful execution(s) without it, untouched, and received `changed` == exactly that file')
-    nsess, nrev, ndel, nread = ctx.n(120, 600), ctx.n(110, 500), ctx.n(144, 720), ctx.n(12, 36)
+    out.rule += ('; family shared (python-actions declared as (callable, args, kwargs) over dict objects shared between tasks and living '
+                 'across the runs of the process; named / **kwargs / mixed signatures; model side and all oracles above, plus c10:kwargs-*): a '
+                 '(session, run) counts when a task with such an action was executed with getargs values through **kwargs or a shared dict; '
+                 'family kwargs (class level, harness/c10_kwargs.py; Model/Kwargs.v): an execution counts when it received the current value of '
+                 'an option although an earlier execution over the same dict object held another value under that name')
+    nsess, nrev, ndel, nread, nshared = ctx.n(120, 600), ctx.n(110, 500), ctx.n(144, 720), ctx.n(12, 36), ctx.n(70, 500)
     cases, metas = [], []
-    for idx in range(nsess + nrev + ndel + nread):
+    import time
+    fam_s = {}
+    for idx in range(nsess + nrev + ndel + nread + nshared):
+        t_fam = time.time()
         is_delayed = nsess + nrev <= idx < nsess + nrev + ndel
-        is_readded = idx >= nsess + nrev + ndel
-        if is_readded:
+        is_readded = nsess + nrev + ndel <= idx < nsess + nrev + ndel + nread
+        is_shared = idx >= nsess + nrev + ndel + nread
+        if is_shared:
+            # (generated after the older families: their sessions are the same as before for a given seed)
+            hist = ctx.rng.choice(['random', 'revalue', 'revalue'])
+            sess = gen_session(ctx.rng, idx, hist, ncons_choices=(1, 2, 2))
+            sess['mode'], sess['hist'] = 'shared', hist
+            c10_kwargs.add_decl(ctx.rng, sess)
+            out.count('shared:layout:%s:%s' % (sess.get('layout', 'no-python-consumer'), hist))
+        elif is_readded:
             sess = gen_readded_session(idx, idx - nsess - nrev - ndel)
             out.count('readded:variant:' + sess['variant'])
         elif is_delayed:
@@ -1585,6 +1631,8 @@ def run(ctx):
                 judge_session(sess, w, runs, out)
                 if is_readded:
                     judge_readded(sess, w, runs, out)
+                if is_shared:
+                    c10_kwargs.judge_decl(sess, w, runs, out)
             except Exception:  # noqa
                 import traceback
                 ctx.notes.append('oracle, session %d: %s' % (idx, traceback.format_exc()[-600:]))
@@ -1602,6 +1650,8 @@ def run(ctx):
                 t = obs['live'][i]
                 out.count('executed:' + t['kind'] + ':' + t['action'])
                 if 'kw' in l:
+                    if t.get('decl') and t['getargs'] and any(pname(a) in l['kw'] for a, _, _ in t['getargs']):
+                        out.count('shared:getargs-received-through:' + ('named-parameter' if t['decl']['sig'] == 'named' else '**kwargs'))
                     if t['getargs'] and any(pname(a) in l['kw'] for a, _, _ in t['getargs']):
                         out.nontrivial.add((idx, ri))
                         for a, s, k in t['getargs']:
@@ -1631,7 +1681,14 @@ def run(ctx):
         if w is not None:
             import shutil
             shutil.rmtree(w.dir, ignore_errors=True)
+        fam_s[sess['mode']] = fam_s.get(sess['mode'], 0) + time.time() - t_fam
+    t_fam = time.time()
+    c10_kwargs.class_level(ctx, out, common)
+    fam_s['kwargs(class level, with its model evaluation)'] = time.time() - t_fam
+    t_fam = time.time()
     bad = common.compare_with_model(ctx, PRE, cases, tag='c10')
+    fam_s['model evaluation of the sessions'] = time.time() - t_fam
+    out.extra['seconds_per_family'] = {k: round(v, 1) for k, v in fam_s.items()}
     for i, got in bad:
         out.mismatches.append(dict(case=cases[i]['desc'], impl=cases[i]['expected'][:400], model=got[:400],
                                    session=metas[cases[i]['desc']['session']] if cases[i]['desc'].get('kind') == 'session' else None))
@@ -1642,9 +1699,10 @@ def run(ctx):
         'round-robin; no process runner: run-time created tasks must be picklable, the instrumented closures are not) is judged by the IMPLEMENTATION-SIDE oracle only (Shadow.judge): delayed creation is modelled in coq/Model/Delayed.v '
         'for C15, not in Model/Inputs.v; no theorem of Properties/C10.v speaks about delayed-created tasks']
     out.extra['delayed_family'] = dict(sessions=ndel, runs=out.distribution.get('delayed:runs', 0))
-    out.extra['trusted_base'] = ['Python inspect-based keyword binding of _prepare_kwargs and %-formatting of CmdAction (oracles; exercised, not modelled)',
+    out.extra['trusted_base'] = ['Python inspect.signature / bind_partial as used by _prepare_kwargs (oracle: the model Kwargs.v is given the parameter names, **kwargs flag and number of positional arguments) and %-formatting of CmdAction (oracle; exercised, not modelled)',
                                  'the canonical depth-first schedule of Inputs.visit (other schedules: compared on the serial, process and thread runners)']
     out.assumptions = ['task params / pos_arg not modelled (options start empty)',
+                       'Model/Kwargs.v: the meta-argument `task`, default values on reserved names (InvalidTask), *args and keyword-only parameters are not modelled',
                        'result_dep on a group source not modelled: group sources are explicit setup-tasks in the generated graphs',
                        'values are ints/None; lists returned by a calc task are coded as bit masks over 16 files/tasks']
     return out
@@ -1718,6 +1776,14 @@ def thaw_task(t):
 def replay(ctx, payload):
     """re-executes the session of a violation replay file on the real code and judges it again"""
     case = payload.get('case') or {}
+    if case.get('family') == 'kwargs':
+        out = Outcome()
+        c10_kwargs.replay_program(ctx, payload, out)
+        shapes = sorted({v['shape'] for v in out.violations})
+        for v in out.violations[:8]:
+            print('VIOLATION property=C10 shape=%s: %s' % (v['shape'], v['what']))
+        print('replayed: %d execution(s), violation shapes now: %s' % (len(case['program']['calls']), shapes))
+        return 1 if payload.get('shape') in shapes else 0
     if 'tasks' not in case:
         print(json.dumps(payload, indent=1, default=str)[:4000])
         return 1
@@ -1728,6 +1794,8 @@ def replay(ctx, payload):
             c[2] = thaw_task(c[2])
         cmds.append(tuple(c))
     sess = dict(idx=0, tasks=[thaw_task(t) for t in case['tasks']], cmds=cmds, backend=case.get('backend', 'json'), mode=case.get('mode', 'random'))
+    if 'objs' in case:
+        sess['objs'] = case['objs']
     out = Outcome()
     if sess['mode'] == 'delayed':
         print('session of the delayed family (consumers created at run time by create_after creators):')
@@ -1738,6 +1806,12 @@ def replay(ctx, payload):
     if case.get('script'):
         sess.update(script=[tuple(x) for x in case['script']], variant=case.get('variant', 'replay'))
         judge_readded(sess, w, runs, out)
+    if sess['mode'] == 'shared':
+        c10_kwargs.judge_decl(sess, w, runs, out)
+        for obs in runs:
+            for l in obs['logged']:
+                if 'kw' in l and obs['live'][w.ids[l['task']]].get('decl'):
+                    print('run %d: %s received %s' % (obs['run_no'], l['task'], {kk: ([os.path.basename(p) for p in v] if kk in ('dependencies', 'changed', 'targets') else v) for kk, v in l['kw'].items()}))
     shapes = sorted({v['shape'] for v in out.violations})
     if sess['mode'] == 'delayed':
         for obs in runs:
